@@ -126,6 +126,46 @@ struct VProblem : alpaqa::BoxConstrProblem<config_t> {
     std::string get_name() const { return "VProblem"; }
 };
 
+// (added for the provider-mix runs) VProblem that additionally SUPPLIES the optional combined members selected by `mask`
+// (bit 1 f_grad_f, 2 f_g, 3 grad_f_grad_g_prod, 4 grad_L, 5 ψ, 6 grad_ψ, 7 ψ_grad_ψ). Each supplied member returns exactly what the
+// library's default composition returns (it delegates to a type-erased view of the plain problem with PRIVATE work buffers) and
+// then fills the caller's work buffers with NaN: a solver must not rely on what a user-supplied member leaves in work_n / work_m.
+struct VProblemProv : VProblem {
+    unsigned mask = 0;
+    VProblemProv(const VProblem &b, unsigned mask) : VProblem{b}, mask{mask} {}
+    alpaqa::TypeErasedProblem<config_t> plain() const { return alpaqa::TypeErasedProblem<config_t>{static_cast<const VProblem *>(this)}; }
+    static void poison(rvec w) { w.setConstant(alpaqa::NaN<config_t>); }
+    real_t eval_f_grad_f(crvec x, rvec gr) const { return plain().eval_f_grad_f(x, gr); }
+    real_t eval_f_g(crvec x, rvec g) const { return plain().eval_f_g(x, g); }
+    void eval_grad_f_grad_g_prod(crvec x, crvec y, rvec gf, rvec gg) const { plain().eval_grad_f_grad_g_prod(x, y, gf, gg); }
+    void eval_grad_L(crvec x, crvec y, rvec gl, rvec work_n) const {
+        vec wn(n);
+        plain().eval_grad_L(x, y, gl, wn);
+        poison(work_n);
+    }
+    real_t eval_ψ(crvec x, crvec y, crvec Σ, rvec ŷ) const { return plain().eval_ψ(x, y, Σ, ŷ); }
+    void eval_grad_ψ(crvec x, crvec y, crvec Σ, rvec gr, rvec work_n, rvec work_m) const {
+        vec wn(n), wm(m);
+        plain().eval_grad_ψ(x, y, Σ, gr, wn, wm);
+        poison(work_n), poison(work_m);
+    }
+    real_t eval_ψ_grad_ψ(crvec x, crvec y, crvec Σ, rvec gr, rvec work_n, rvec work_m) const {
+        vec wn(n), wm(m);
+        real_t v = plain().eval_ψ_grad_ψ(x, y, Σ, gr, wn, wm);
+        poison(work_n), poison(work_m);
+        return v;
+    }
+    bool provides_eval_f_grad_f() const { return mask & 2u; }
+    bool provides_eval_f_g() const { return mask & 4u; }
+    bool provides_eval_grad_f_grad_g_prod() const { return mask & 8u; }
+    bool provides_eval_grad_L() const { return mask & 16u; }
+    bool provides_eval_ψ() const { return mask & 32u; }
+    bool provides_eval_grad_ψ() const { return mask & 64u; }
+    bool provides_eval_ψ_grad_ψ() const { return mask & 128u; }
+    std::string get_name() const { return "VProblemProv"; }
+};
+static unsigned g_provmask = 0;
+
 // ---------------------------------------------------------------------------------------------- scripted direction
 // A direction provider for PANOC/ZeroFPR whose answers are scripted: used to force every line-search branch.
 struct ScriptedDirection {
@@ -295,7 +335,8 @@ struct Run {
 
 template <class Solver>
 void run_solver(Solver &solver, VProblem &vp, Run &r, Json &j) {
-    alpaqa::TypeErasedProblem<config_t> problem{&vp};
+    VProblemProv vpp{vp, g_provmask};
+    alpaqa::TypeErasedProblem<config_t> problem = g_provmask ? alpaqa::TypeErasedProblem<config_t>{&vpp} : alpaqa::TypeErasedProblem<config_t>{&vp};
     solver.set_progress_callback([](const typename Solver::ProgressInfo &i) { record(i); });
     vec x = r.x, y = r.y, Σ = r.Σ, err_z = vec::Constant(vp.m, alpaqa::NaN<config_t>);
     if (!r.alm) {
@@ -385,7 +426,11 @@ int main() {
             vp.D.lowerbound = vio::rvec<vec>(); vp.D.upperbound = vio::rvec<vec>();
             vp.l1_reg = vio::rvec<vec>();
             vp.penalty_alm_split = vio::ri();
-            vp.provide_hess = vio::ri() != 0;
+            {   // bit 0: Hessian-vector products; bits 1..7: optional combined members supplied by the problem (VProblemProv)
+                long flags      = vio::ri();
+                vp.provide_hess = flags & 1;
+                g_provmask      = static_cast<unsigned>(flags) & 0xfeu;
+            }
             Run r;
             r.x = vio::rvec<vec>(); r.y = vio::rvec<vec>(); r.Σ = vio::rvec<vec>();
             std::string solver = vio::tok(), dir = vio::tok(), mode = vio::tok();
